@@ -42,6 +42,10 @@ type scope struct {
 
 	// State
 	disposed int32 // atomic
+
+	// closed is closed once Close has finished; closeErr is its result
+	closed   chan struct{}
+	closeErr error
 }
 
 func newScope(rootProvider *provider, parent *scope, ctx context.Context, cancel context.CancelFunc) (*scope, error) {
@@ -60,6 +64,7 @@ func newScope(rootProvider *provider, parent *scope, ctx context.Context, cancel
 		instances:    make(map[instanceKey]any, 8), // Pre-size for typical usage
 		disposables:  make([]Disposable, 0, 4),
 		children:     make(map[*scope]struct{}, 2),
+		closed:       make(chan struct{}),
 	}
 
 	ctx = context.WithValue(ctx, scopeContextKey{}, s)
@@ -236,6 +241,29 @@ func (s *scope) Close() error {
 		return nil // Already closed
 	}
 
+	err := s.dispose()
+	s.closeErr = err
+	close(s.closed)
+	return err
+}
+
+// closeOwned is Close for the owner (parent scope or provider): if somebody
+// else - typically the context watcher - is already closing the scope, it waits
+// for that to finish and reports its outcome, so that the owner neither runs
+// ahead of its descendants nor loses their errors.
+func (s *scope) closeOwned() error {
+	if atomic.CompareAndSwapInt32(&s.disposed, 0, 1) {
+		err := s.dispose()
+		s.closeErr = err
+		close(s.closed)
+		return err
+	}
+
+	<-s.closed
+	return s.closeErr
+}
+
+func (s *scope) dispose() error {
 	var errs []error
 
 	// Cancel context
@@ -253,7 +281,7 @@ func (s *scope) Close() error {
 	s.childrenMu.Unlock()
 
 	for _, child := range children {
-		if err := child.Close(); err != nil {
+		if err := child.closeOwned(); err != nil {
 			errs = append(errs, fmt.Errorf("failed to close child scope: %w", err))
 		}
 	}
